@@ -113,3 +113,23 @@ Lemma distancetoedge_zero_cross c a b :
   PrimFloat.eqb (s2_minChordAngle (s2_Cell_Distance c a) [s2_Cell_Distance c b]) 0 = false ->
   cell_DistanceToEdge true c a b = 0%float.
 Proof. intros H. unfold cell_DistanceToEdge. rewrite H. reflexivity. Qed.
+
+(** * edgeDistance: the pre-repair formula (before 5dba006) took the square root of a
+    possibly negative rounding residue.  Kept as a definition to record the witness. *)
+Definition edgeDistance_old (v_ij v_uv : float) : float :=
+  let v_pq2 := PrimFloat.div (PrimFloat.mul v_ij v_ij) (PrimFloat.add 1%float (PrimFloat.mul v_uv v_uv)) in
+  let v_qr := PrimFloat.sub 1%float (PrimFloat.sqrt (PrimFloat.sub 1%float v_pq2)) in
+  s1_ChordAngleFromSquaredLength (PrimFloat.add v_pq2 (PrimFloat.mul v_qr v_qr)).
+
+(** ij = fl(sqrt 2) (the target is 90 degrees from the side u = 1 of a face cell), uv = 1 *)
+Lemma edgeDistance_old_refuted :
+  exists ij uv, go_isnan (edgeDistance_old ij uv) = true /\ go_isnan (s2_edgeDistance ij uv) = false.
+Proof. exists (0x1.6a09e667f3bcdp+0)%float, 1%float. vm_compute. auto. Qed.
+
+(** the face-0 cell and the midpoint of its edge 1: BoundaryDistance was NaN, is now 0 *)
+Definition face0_cell : s2_Cell := s2_CellFromCellID 1152921504606846976.
+Definition edge1_mid : s2_Point :=
+  mk_s2_Point (mk_r3_Vector (0x1.6a09e667f3bcdp-1)%float (0x1.6a09e667f3bcdp-1)%float 0%float).
+Example boundarydistance_face_edge_mid :
+  s2_Cell_BoundaryDistance face0_cell edge1_mid = 0%float /\ uv_inside face0_cell edge1_mid = true.
+Proof. vm_compute. auto. Qed.
